@@ -5,6 +5,7 @@ package main
 import (
 	"go/ast"
 	"go/types"
+	"sort"
 	"strings"
 )
 
@@ -243,8 +244,28 @@ func (fc *FuncCtx) objInvTerm(st *State, oi *ObjInv, v Term, n ast.Node) string 
 	return fc.cevalIn(env, oi.Clause, n).S
 }
 
+// chanPredsFor lists the ghost channel predicates whose element type matches.
+func (fc *FuncCtx) chanPredsFor(elem types.Type) []string {
+	var out []string
+	for name, oi := range fc.w.ChanPreds {
+		if types.Identical(oi.ElemType, elem) {
+			out = append(out, name)
+		}
+	}
+	sort.Strings(out)
+	return out
+}
+
 // chanSend: the channel invariant is an obligation on the value sent.
 func (fc *FuncCtx) chanSend(st *State, ch ast.Expr, v Term, n ast.Node) {
+	if ct, ok := fc.typeOf(ch).Underlying().(*types.Chan); ok {
+		for _, name := range fc.chanPredsFor(ct.Elem()) {
+			oi := fc.w.ChanPreds[name]
+			fc.w.declareUninterp(fc.w.Uninterps[name])
+			c := fc.eval(st, ch)
+			fc.oblige(st, "chan.inv", name, implies("(u_"+name+" "+c.S+")", fc.objInvTerm(st, oi, v, n)), n, "value sent on "+exprStr(ch)+" satisfies "+name+": "+oi.Clause.Text)
+		}
+	}
 	if oi := fc.w.ChanInvs[fc.globalKey(ch)]; oi != nil {
 		fc.oblige(st, "chan.inv", "", fc.objInvTerm(st, oi, v, n), n, "value sent on "+exprStr(ch)+" satisfies the channel invariant: "+oi.Clause.Text)
 	}
@@ -252,6 +273,17 @@ func (fc *FuncCtx) chanSend(st *State, ch ast.Expr, v Term, n ast.Node) {
 
 // chanRecvAssume: a received value satisfies the channel invariant.
 func (fc *FuncCtx) chanRecvAssume(st *State, ch ast.Expr, v Term, ok string, n ast.Node) {
+	if ct, isCh := fc.typeOf(ch).Underlying().(*types.Chan); isCh {
+		for _, name := range fc.chanPredsFor(ct.Elem()) {
+			oi := fc.w.ChanPreds[name]
+			fc.w.declareUninterp(fc.w.Uninterps[name])
+			saved := fc.quiet
+			fc.quiet = true
+			c := fc.eval(st, ch)
+			fc.quiet = saved
+			fc.assume(st, implies(and(ok, "(u_"+name+" "+c.S+")"), fc.objInvTerm(st, oi, v, n)))
+		}
+	}
 	if oi := fc.w.ChanInvs[fc.globalKey(ch)]; oi != nil {
 		fc.assume(st, implies(ok, fc.objInvTerm(st, oi, v, n)))
 	}
